@@ -36,6 +36,7 @@ LifeOK(e) ==
     /\ e.reread_same_handle /\ e.reread_fresh_handle        \* ReadsSeeFile: mutating a scanned slice changes no later read
     /\ e.string_after_mutate /\ e.other_slice_after_mutate  \* Independent: scanned values do not share memory
     /\ e.after_close /\ e.after_overwrite                   \* ... and outlive the transaction, the handle and the file
+    /\ e.kept_after_rescan                                   \* ... and a later Scan into the same variable
 
 TInit == l = 1 /\ bad = <<>> /\ LInit
 Step ==
